@@ -212,12 +212,25 @@ class TVResult:
     batches: int = 0
 
 
+def _clean(o):
+    """TLC's JSON reader rejects null and mangles floats: None -> "null", float -> int."""
+    if o is None:
+        return "null"
+    if isinstance(o, float):
+        return int(o)
+    if isinstance(o, dict):
+        return {str(k): _clean(v) for k, v in o.items()}
+    if isinstance(o, (list, tuple)):
+        return [_clean(v) for v in o]
+    return o
+
+
 def _tv_batch(spec, cfg_text, batch, offset, ev_key, timeout, extra_env):
     tmp = tempfile.mkdtemp(prefix="vf-tv-")
     try:
         tf = os.path.join(tmp, "batch.json")
         with open(tf, "w") as f:
-            json.dump(batch, f, separators=(",", ":"))
+            json.dump(_clean(batch), f, separators=(",", ":"))
         cfg = _write_cfg(tmp, cfg_text)
         args = ["-workers", "1", "-metadir", os.path.join(tmp, "m"), "-noGenerateSpecTE", "-config", cfg,
                 spec + ".tla"]
